@@ -29,6 +29,8 @@ enum Want {
 enum Pre {
     None,
     Tcp,
+    /// a pre-opened TCP stream whose peer reads and never answers
+    TcpSilent,
     Unix,
     Invalid,
 }
@@ -82,6 +84,14 @@ fn attempt(c: &Case, env: &Env) -> (Result<Result<bool, &'static str>, String>, 
             let client = std::net::TcpStream::connect(addr).expect("connect");
             let (srv, _) = l.accept().expect("accept");
             serve_stream(srv, "prestream-tcp", Mode::Responder, env.contacts.clone());
+            settings = settings.set_std_stream(StdStream::Tcp(client));
+        }
+        Pre::TcpSilent => {
+            let l = std::net::TcpListener::bind("127.0.0.1:0").expect("bind");
+            let addr = l.local_addr().unwrap();
+            let client = std::net::TcpStream::connect(addr).expect("connect");
+            let (srv, _) = l.accept().expect("accept");
+            serve_stream(srv, "prestream-tcp-silent", Mode::Silent, env.contacts.clone());
             settings = settings.set_std_stream(StdStream::Tcp(client));
         }
         Pre::Unix => {
@@ -189,6 +199,24 @@ fn judge(rep: &Reporter, c: &Case, env: &Env) {
         Want::FailAfterContact(l) => {
             if got.is_ok() || !new.iter().all(|x| x == l) || new.is_empty() {
                 bad(format!("expected {} to be contacted and the establishment to fail", l));
+            } else {
+                // what the peer saw first: an ldaps URL means TLS from the first octet on, whatever
+                // the StartTLS setting; ldap + StartTLS begins with the StartTLS request
+                let t0 = Instant::now();
+                let first: Vec<u8> = loop {
+                    let b: Vec<u8> = env.contacts.lock().unwrap()[n0..].iter().filter(|x| x.listener == *l).flat_map(|x| x.bytes.clone()).collect();
+                    if !b.is_empty() || t0.elapsed() > Duration::from_millis(1500) {
+                        break b;
+                    }
+                    std::thread::sleep(Duration::from_millis(5));
+                };
+                let ldaps = c.url.to_ascii_lowercase().starts_with("ldaps:");
+                if ldaps && first.first() != Some(&0x16) {
+                    bad(format!("an ldaps URL must start with a TLS handshake record, the peer received {}", ber::hex(&first[..first.len().min(40)])));
+                }
+                if !ldaps && first.first() != Some(&0x30) {
+                    bad(format!("ldap + StartTLS must start with the StartTLS request, the peer received {}", ber::hex(&first[..first.len().min(40)])));
+                }
             }
         }
         Want::Timeout => {
@@ -230,6 +258,7 @@ fn pct_path(p: &str, upper: bool) -> String {
 
 pub fn run(tier: Tier) -> i32 {
     let rep = Reporter::new("C18", tier);
+    let _ports = super::lock_default_ports();
     let contacts: Contacts = Arc::new(Mutex::new(vec![]));
     // listeners
     let open_port = tcp_listener("127.0.0.1:0", "tcp:open", Mode::Responder, contacts.clone()).expect("ephemeral listener");
@@ -304,6 +333,7 @@ pub fn run(tier: Tier) -> i32 {
                                 } else {
                                     match pre {
                                         Pre::Unix | Pre::Invalid => Want::Mismatched,
+                                        Pre::TcpSilent => unreachable!(),
                                         Pre::Tcp => {
                                             if tls {
                                                 Want::FailAfterContact("prestream-tcp".into())
@@ -352,6 +382,11 @@ pub fn run(tier: Tier) -> i32 {
         (pct_path(&sock_colon, true), Want::OkAt("unix:colon".into())),
         (pct_path(&sock_colon, false), Want::OkAt("unix:colon".into())),
         (pct_path(&format!("{}/nonexistent.sock", dir), true), Want::ConnectError),
+        // percent-escapes that do not decode to UTF-8: no such socket, never a panic
+        (format!("{}%2Fsock%FF%FE", pct_path(&dir, true)), Want::ConnectError),
+        (format!("{}%2f%c3%28", pct_path(&dir, false)), Want::ConnectError),
+        ("%80".into(), Want::ConnectError),
+        ("%2Ftmp%2F%E2%82".into(), Want::ConnectError),
         ("".into(), Want::EmptyUnixPath),
         (format!("{}:389", pct_path(&sock_plain, true)), Want::PortInUnixPath),
         (format!("{}:x", pct_path(&sock_plain, true)), Want::ParseError),
@@ -368,7 +403,7 @@ pub fn run(tier: Tier) -> i32 {
                                 match pre {
                                     Pre::None => w.clone(),
                                     Pre::Unix => Want::OkAt("prestream-unix".into()),
-                                    Pre::Tcp | Pre::Invalid => Want::Mismatched,
+                                    Pre::Tcp | Pre::TcpSilent | Pre::Invalid => Want::Mismatched,
                                 }
                             };
                             cases.push(Case { url: format!("{}://{}/", scheme, p), starttls, pre, timeout_ms, sync_api, want });
@@ -409,6 +444,15 @@ pub fn run(tier: Tier) -> i32 {
             }
         }
     }
+    // the same over a pre-opened TCP stream whose peer stays silent: the timeout bounds the
+    // StartTLS exchange / TLS handshake there as well
+    for sync_api in [false, true] {
+        for (scheme, starttls) in [("ldap", true), ("ldaps", false), ("ldaps", true)] {
+            for ms in [300u64, 700] {
+                cases.push(Case { url: format!("{}://127.0.0.1:{}/", scheme, closed_port), starttls, pre: Pre::TcpSilent, timeout_ms: Some(ms), sync_api, want: Want::Timeout });
+            }
+        }
+    }
     let total = cases.len();
     // run sequentially so that contacts can be attributed (timeout cases overlap nothing else)
     let mut per_kind: std::collections::BTreeMap<&'static str, u64> = Default::default();
@@ -420,7 +464,7 @@ pub fn run(tier: Tier) -> i32 {
     let c = cov(vec![
         ("evaluations", json!(total)),
         ("distinct_nontrivial", json!(total)),
-        ("rule", json!("product of scheme {ldap, ldaps, LDAP, LdapS} x host {absent, localhost, 127.0.0.1, [::1], name.invalid} x port {absent, open, closed} x StartTLS x pre-opened stream {none, TCP, Unix, Invalid} x conn_timeout x {LdapConnAsync, LdapConn}; ldapi paths {live (upper/lower-case percent-encoding), with space, with an encoded colon, nonexistent, empty, with :389, with :x} x the same settings; unknown schemes and unparsable strings; silent-server timeout cases. Each case is a distinct (URL, settings, API) triple; the reference function predicts which loopback listener is contacted and the error class")),
+        ("rule", json!("product of scheme {ldap, ldaps, LDAP, LdapS} x host {absent, localhost, 127.0.0.1, [::1], name.invalid} x port {absent, open, closed} x StartTLS x pre-opened stream {none, TCP, Unix, Invalid} x conn_timeout x {LdapConnAsync, LdapConn}; ldapi paths {live (upper/lower-case percent-encoding), with space, with an encoded colon, nonexistent, empty, with :389, with :x} x the same settings; unknown schemes and unparsable strings; silent-server timeout cases, also over a pre-opened TCP stream; for TLS-against-cleartext cases the first octets the peer received (TLS record for ldaps, StartTLS request for ldap+StartTLS). Each case is a distinct (URL, settings, API) triple; the reference function predicts which loopback listener is contacted and the error class")),
         ("cases_by_expected_outcome", json!(per_kind)),
         ("default_port_listeners", json!({"127.0.0.1:389": p389, "[::1]:389": p389v6, "127.0.0.1:636": p636, "[::1]:636": p636v6, "[::1]:open": v6_open})),
         ("samples", json!([format!("{:?}", cases[17]), format!("{:?}", cases[cases.len() - 1])])),
